@@ -7,7 +7,9 @@ EXTENDS SourceLine_MC, Json
 
 VARIABLES v
 GenLine == [lab |-> <<108, 98>>, op |-> <<109, 111, 118>>, attr |-> <<>>, args |-> <<T_ID, T_NUM>>]
-LineVectors == {[ch EXCEPT !.dtab = d] : ch \in {x \in Choices(PDefault, GenLine) : Allowed(PDefault, GenLine, x)}, d \in BOOLEAN}
+LineVectors == {[ch EXCEPT !.dtab = d, !.case = ca] :
+                  ch \in {x \in Choices(PDefault, GenLine) : Allowed(PDefault, GenLine, x) /\ x.case = "keep"},
+                  d \in BOOLEAN, ca \in {"keep", "upper", "lower", "swap", "alt"}}
 FileVectors == {[kind |-> "file", wrap |-> w, blanklines |-> b, crlf |-> e] :
                   w \in {"none", "include", "macro"}, b \in BOOLEAN, e \in {"lf", "crlf", "mixed"}}
 
